@@ -23,6 +23,9 @@ func report(c *eng.Ctx, prop string, idx int, r *Run, fs []Finding) {
 	if r != nil && (prop == "C01" || prop == "C02" || prop == "C03" || prop == "C04" || prop == "C09" || prop == "C15") {
 		fs = append(append([]Finding(nil), fs...), r.SliceFindings()...)
 	}
+	if r != nil && r.sib != nil {
+		fs = append(append([]Finding(nil), fs...), r.SiblingFindings()...)
+	}
 	for _, f := range fs {
 		sig := prop + "/" + f.Clause
 		if f.Sig != "" {
